@@ -133,6 +133,32 @@ def gen(tier, seed, info):
                 yield "cb1=- cb2=%s %s %s r0" % (z, others, tail)
     info["relative_timer_cases"] = nrel
     n += nrel
+    # ---- nest cases (coq/LoopNest.v): a callback that runs a NESTED iteration (n) while other due watches wait their turn;
+    #      DESTROY handlers (db<k>=...) that register / cancel watches of the kinds destroyed later
+    nnest = 0
+    for body in ["n", "n,t0:0:3", "t0:0:3,n", "l0:3,n", "n,n", "c1,n", "n,c2", "t-5:2:3,l2:3,n"]:
+        for regs in ["t0:0:1 t0:0:2 t5000:0:2", "t0:0:2 t0:0:1 t1:0:2 t5000:2:2", "l0:1 t0:0:2 l0:2", "t0:0:1 l0:2 t0:2:2 l2:2",
+                     "ta0:0:1 t0:6:2 l6:2 t900:0:2"]:
+            for tail in ["r0 r10000", "r1 r0", "r1000 r0 r5000"]:
+                nnest += 1
+                yield "WN cb1=%s cb2=- cb3=- %s %s" % (body, regs, tail)
+    for body in ["n", "n,l0:3"]:
+        nnest += 1
+        yield "WN cb1=%s cb2=n cb3=- t0:0:1 t0:0:2 t0:0:3 l0:3 r0 r0" % body          # a nested iteration inside a nested one
+    DKIND = {"io": "wi0:1:%d:%d", "timer": "t5000:%d:%d", "later": "l%d:%d"}
+    for first, firstfl in [("io", 4), ("io", 6), ("timer", 4), ("timer", 6)]:
+        later_kinds = ["timer", "later"] if first == "io" else ["later"]
+        for db in ["l4:3", "l6:3", "t9000:4:3", "t100:2:3", "c1", "c2", "c1,l4:3", "l0:3,c2", "c1,c2"]:
+            if first == "timer" and "t" in db.replace("c", ""):
+                continue                                  # registering into the list under destruction: outside the model
+            for k2 in later_kinds:
+                for fl2 in (2, 4, 6, 0):
+                    victims = "%s %s" % (DKIND[k2] % (fl2, 2) if k2 != "later" else "l%d:2" % fl2, "l6:2")
+                    nnest += 1
+                    yield "WN db1=%s cb2=- cb3=- %s %s r0" % (db, DKIND[first] % (firstfl, 1) if first != "later" else "", victims) if False else \
+                          "WN db1=%s cb2=- cb3=- %s %s" % (db, DKIND[first] % (firstfl, 1), victims)
+    info["nest_cases"] = nnest
+    n += nnest
     info["chain_cases"] = nch
     n += nch
     # ---- cancel whose UNBIND notification registers a replacement (re-entrancy of tickit_watch_cancel)
@@ -264,7 +290,7 @@ def classify(case, obs):
 
 def shrink(case):
     toks = case.split()
-    keep = 1 if toks and toks[0] in ("WP", "WS", "WI") else 0      # the model selector is not a shrinkable token
+    keep = 1 if toks and toks[0] in ("WP", "WS", "WI", "WN") else 0      # the model selector is not a shrinkable token
     for i in range(keep, len(toks)):
         yield " ".join(toks[:i] + toks[i + 1:])
     for i, t in enumerate(toks):
